@@ -246,7 +246,7 @@ def random_scenario(c, tr):
 def split_traces(lines):
     out, cur = {}, None
     for l in lines:
-        if l.get('op') == 'new':
+        if l.get('op') in ('new', 'mnew'):
             cur = l['tr']
             out[cur] = []
         out[cur].append(l)
@@ -373,10 +373,16 @@ CLAUSE = {
     'indep': 'the decision differs from the decision for the value\'s own sub-history although the capacity is not exceeded',
     'reject-mode-wait': 'a reject-mode rule asked the caller to sleep',
     'panic': 'api.Entry panicked',
+    'unknown-rule': 'a request was refused in the name of a rule that is not in force',
+    'reload': 'not every rule of the pushed list is in force',
 }
 
 
 def describe(exp, obs):
+    if 'rule' in exp:
+        return ('%s - several rules on one resource after a reload: rule %s refused value %s of ITS argument, idle %s ms in the rule\'s own books '
+                '(-1 = never charged to this rule or to any rule it may have replaced); observed %s' % (
+                    CLAUSE.get(exp.get('why'), exp.get('why')), exp.get('rule'), exp.get('v'), exp.get('idle'), obs[:400]))
     if 'n' in exp:
         return ('%s: %s of the %s fresh values of a flood admitted (general threshold %s, capacity %s); observed %s' % (
             CLAUSE.get(exp.get('why'), exp.get('why')), exp.get('admitted'), exp.get('n'), exp.get('thr'), exp.get('cap'), obs[:400]))
@@ -423,7 +429,7 @@ def count_nontrivial(scns, tp):
     out = set()
     for s in scns:
         t = traces.get(s[0]['tr'], [])
-        if any(e['op'] == 'req' and (not e['ok'] or e['wait'] > 0) for e in t):
+        if any(e['op'] in ('req', 'mreq') and (not e['ok'] or e['wait'] > 0) for e in t):
             out.add(json.dumps(s[1:], sort_keys=True) + json.dumps(s[0]['cf'], sort_keys=True))
     return out
 
@@ -540,15 +546,16 @@ def tlc_many(c, jobs):
     """several small TLC runs of HotParamQps_MC side by side (variant of Check.tlc: own directory per job).
     jobs = [(name, cfg_text, extra_args)]; returns {name: TLCResult}; every run is listed in the evidence"""
     def one(job):
-        name, text, args = job
+        name, text, args = job[:3]
+        module = job[3] if len(job) > 3 else 'HotParamQps_MC'
         d = os.path.join(c.scratch, 'ptlc-' + name)
         os.makedirs(d)
         for f in os.listdir(SPEC):
             if f.startswith('HotParam') and f.endswith('.tla'):
                 shutil.copy(os.path.join(SPEC, f), d)
-        open(os.path.join(d, 'HotParamQps_MC.cfg'), 'w').write(text)
+        open(os.path.join(d, module + '.cfg'), 'w').write(text)
         cmd = ['java', '-XX:+UseParallelGC', '-Xmx3g', '-Xss64m', '-cp', TLA_CP, 'tlc2.TLC', '-workers', '2' if '-simulate' not in args else '1',
-               '-metadir', os.path.join(d, 'md'), '-noGenerateSpecTE'] + list(args) + ['HotParamQps_MC']
+               '-metadir', os.path.join(d, 'md'), '-noGenerateSpecTE'] + list(args) + [module]
         t = time.time()
         try:
             p = subprocess.run(cmd, cwd=d, stdout=subprocess.PIPE, stderr=subprocess.STDOUT, text=True, timeout=900)
@@ -578,7 +585,173 @@ def flood_jobs(c, thorough):
     for i, p in enumerate(SIM_FLOOD):
         jobs.append(('sim-%d' % i, mc_cfg(*p[:12], **dict(kw_of(p), emit=True, inv=False)),
                      ['-simulate', 'num=%d' % (100 if not thorough else 1000), '-depth', '24', '-seed', str(c.seed)]))
+    # several rules on one resource replaced under traffic (spec/HotParamQpsReload.tla)
+    jobs.append(('rl-s1', reload_cfg(maxops=5 if not thorough else 6), [], 'HotParamQpsReload_MC'))
+    jobs.append(('rl-mutant-own', reload_cfg(maxops=5, mutant='keepcandidate'), [], 'HotParamQpsReload_MC'))
+    jobs.append(('rl-mutant-e3', reload_cfg(maxops=5, mutant='keepcandidate', invs='TypeOK E3OK'), [], 'HotParamQpsReload_MC'))
+    jobs.append(('rl-gen', reload_cfg(maxops=4, emit=True), [], 'HotParamQpsReload_MC'))
     return jobs
+
+
+def reload_cfg(maxops=5, mutant='', invs='TypeOK OwnBooks E3OK', emit=False):
+    return """SPECIFICATION Spec
+CONSTANTS
+  Values = {"a", "b"}
+  RuleSets <- MCRuleSets
+  D = 1000
+  B = 0
+  Batches = {1}
+  Steps = {500, 1001}
+  MaxT = 1501
+  MaxOps = %d
+  Mutant = "%s"
+VIEW view
+%s
+CHECK_DEADLOCK FALSE
+""" % (maxops, mutant, 'ACTION_CONSTRAINT Emit' if emit else 'INVARIANTS ' + invs)
+
+
+def reload_s1_results(c, res):
+    r = res['rl-s1']
+    if r.error:
+        raise MachineryError('TLC failed on HotParamQpsReload_MC: %s\n%s' % (r.error, r.out[-3000:]))
+    c.cov['states'] += r.distinct
+    c.cov['transitions'] += r.generated
+    c.cov['tlc_runs'].append(dict(module='HotParamQpsReload_MC', cfg='exhaustive', generated=r.generated, distinct=r.distinct, depth=r.depth,
+                                  wall_s=round(r.wall, 1), args='', result='ok' if r.completed else (r.violated or 'deadlock')))
+    c.log('S1 HotParamQpsReload_MC (two selectors, rule lists replaced under traffic): %d distinct states, %d transitions, depth %d, %.0fs -> %s' % (
+        r.distinct, r.generated, r.depth, r.wall, 'no error' if r.completed else 'VIOLATED ' + str(r.violated)))
+    if not r.completed:
+        c.inconclusive.append('HotParamQpsReload.tla: %s violated - the reload algorithm no longer gives every rule its own books' % r.violated)
+    rej = {}
+    for name, level in (('rl-mutant-own', 'all invariants'), ('rl-mutant-e3', 'decision-level invariant only')):
+        m = res[name]
+        if m.error:
+            raise MachineryError('TLC failed on spec mutant keepcandidate: %s\n%s' % (m.error, m.out[-1500:]))
+        c.cov['tlc_runs'].append(dict(module='HotParamQpsReload_MC', cfg='mutant keepcandidate (%s)' % level, generated=m.generated, distinct=m.distinct,
+                                      depth=m.depth, wall_s=round(m.wall, 1), args='', result=m.violated or 'NOT REJECTED'))
+        if not m.violated:
+            c.inconclusive.append('spec-level mutant keepcandidate (%s) is NOT rejected by TLC' % level)
+        rej['keepcandidate (%s)' % level] = m.violated
+    c.cov['spec_mutants_reload_rejected_by'] = rej
+    c.log('S1 spec-level mutant "the taken controller stays a candidate" rejected by: %s' % rej)
+
+
+# selectors of the two abstract argument positions: sel 0 = first of two arguments, sel 1 = second
+SEL0 = [dict(idx=0, key=''), dict(idx=-2, key=''), dict(idx=-2, key='k'), dict(idx=0, key='k')]     # (a positive index together with a key is an invalid rule)
+SEL1 = [dict(idx=1, key=''), dict(idx=-1, key='')]
+
+
+def build_reload(rng, tr, ops, B=0, D=1000):
+    """ops: ('reload', t, [(sel, T), ..]) / ('req', t, x, y, b) -> driver scenario (the first op is a reload)"""
+    s0, s1 = rng.choice(SEL0), rng.choice(SEL1)
+    rl = lambda rules: [dict(dict(s0 if sel == 0 else s1), T=T) for sel, T in rules]
+    cf = dict(mode='reject', T=0, B=B, D=D, MQ=0, items={}, cap=default_cap(D))
+    out = []
+    for o in ops:
+        if o[0] == 'reload':
+            if not out:
+                out.append(dict(op='mnew', tr=tr, ty=rng.choice(TYPES), cf=cf, t=0, rules=rl(o[2])))
+            else:
+                out.append(dict(op='mreload', t=o[1], rules=rl(o[2])))
+        else:
+            _, t, x, y, b = o
+            atts = {'k': x} if s0['key'] else {}
+            if rng.random() < 0.2:
+                atts['other'] = y
+            out.append(dict(op='mreq', t=t, args=[x, y], atts=atts, b=b))
+    return out
+
+
+def reload_of_hist(hist):
+    ops = []
+    for o in hist:
+        if o['op'] == 'mreload':
+            ops.append(('reload', o['t'], [(r['sel'], r['T']) for r in o['rules']]))
+        else:
+            ops.append(('req', o['t'], o['x'], o['y'], o['b']))
+    return ops
+
+
+def random_reload(rng, tr):
+    D = rng.choice([1000, 1000, 2000])
+    B = rng.choice([0, 0, 1])
+    vals = ['a', 'b', 'c', 'd', 'e'][:rng.randint(2, 5)]
+    def rules():
+        x = rng.random()
+        T = lambda: rng.choice([1, 1, 2, 3])
+        if x < 0.25:
+            return [(rng.choice([0, 1]), T())]
+        return rng.choice([[(0, T()), (1, T())], [(1, T()), (0, T())]])
+    t = 0
+    ops = [('reload', 0, rules())]
+    nre = rng.randint(1, 2)
+    n = rng.randint(8, 20)
+    at = set(rng.sample(range(1, n), nre))
+    for i in range(n):
+        if i in at:
+            ops.append(('reload', t, rules()))
+        x, y = rng.choice(vals), rng.choice(vals)
+        if rng.random() < 0.4 and len(ops) > 1 and ops[-1][0] == 'req':
+            x, y = ops[-1][3], ops[-1][2]           # the previous request's values in the other positions
+        ops.append(('req', t, x, y, rng.choice([1, 1, 1, 2])))
+        t += rng.choice([0, 0, 0, 1, 200, D // 2, D + 1, 3 * D])
+    return build_reload(rng, tr, ops, B, D)
+
+
+def directed_reload(rng, tr):
+    """one rule in force and used; ONE push changes it and adds a rule on the other argument; then values that cross positions"""
+    D = 1000
+    s_old = rng.choice([0, 1])
+    T2 = rng.choice([1, 1, 2])
+    new = [(s_old, rng.choice([1, 3])), (1 - s_old, T2)]
+    if rng.random() < 0.4:
+        new.reverse()
+    ops = [('reload', 0, [(s_old, 2)]), ('req', 0, 'e', 'd', 1)]
+    t = rng.choice([0, 1, 3000])
+    ops.append(('reload', t, new))
+    ops += [('req', t, 'a', 'b', 1), ('req', t, 'b', 'a', 1), ('req', t, 'a', 'c', 1)]
+    t += 3000
+    for i in range(rng.randint(2, 4)):
+        ops.append(('req', t, 'de'[i % 2], 'c', 1))     # c only ever in the second position ...
+        t += 200
+    ops.append(('req', t, 'c', 'b', 1))                 # ... then in the first
+    return build_reload(rng, tr, ops, 0, D)
+
+
+def reload_selftest(c, tp, bad):
+    """refuse the first request of clean traces in the name of the first rule: every value is idle for ever -> E3"""
+    out, want = [], set()
+    for tr, lines in sorted(split_traces_m(read_ndjson(tp)).items()):
+        if tr in bad or len(want) >= 30:
+            continue
+        e = next((x for x in lines if x['op'] == 'mreq'), None)
+        if not e or not e['ok'] or not (1 <= e['b'] <= lines[0]['rules'][0]['T']):
+            continue
+        e['ok'], e['blk'] = False, 1
+        want.add(tr)
+        out += lines
+    if len(want) < 5:
+        c.inconclusive.append('binding self-test (reload traces): fewer than 5 clean traces to corrupt')
+        return
+    cp = os.path.join(c.scratch, 'corrupt-reload.ndjson')
+    write_ndjson(cp, out)
+    mism, consumed, r = c.validate('HotParamQps_Trace', cp, len(out))
+    got = {m[0]: json.loads(m[2])['why'] for m in mism}
+    if consumed != len(out) or set(got) != want or set(got.values()) != {'E3'}:
+        raise MachineryError('binding self-test (reload traces) failed: wanted E3 for %s, got %s' % (sorted(want), got))
+    c.cov['binding_selftest_reload'] = '%d corrupted traces (first request refused in the name of the first rule), all rejected with E3' % len(want)
+    c.log('binding self-test (reload traces): %d corrupted traces, all rejected with E3' % len(want))
+
+
+def split_traces_m(lines):
+    out, cur = {}, None
+    for l in lines:
+        if l.get('op') in ('new', 'mnew'):
+            cur = l['tr']
+            out[cur] = []
+        out[cur].append(l)
+    return out
 
 
 def flood_s1_results(c, res, thorough):
@@ -661,6 +834,7 @@ def check(c, tier, replay):
     fres = fut.result()
     ex.shutdown()
     flood_s1_results(c, fres, thorough)
+    reload_s1_results(c, fres)
     c.cov['exhaustive'] = True
     for kind, table in (('gen', GEN_FLOOD), ('sim', SIM_FLOOD)):
         for i, p in enumerate(table):
@@ -691,14 +865,36 @@ def check(c, tier, replay):
                     fs.append(flood_scenario(c.rng, tr, mode, pcap, D, variant))
     c.cov['flood_scenarios'] = len(fs)
     c.cov['flood_capacities'] = ['%s/%ds' % (pc or 'default', D // 1000) for pc, D in FLOOD_CAPS]
+    # several rules on one resource, replaced under traffic: transition cover of HotParamQpsReload, random, the directed shape
+    rl = []
+    r = fres['rl-gen']
+    if r.error:
+        raise MachineryError('scenario generation (reload) failed: %s\n%s' % (r.error, r.out[-1500:]))
+    keep = maximal(r.json_prints())
+    keep = [x for x in keep if any(o['op'] == 'mreq' for o in x)]
+    if len(keep) > (600 if not thorough else 6000):
+        keep = c.rng.sample(keep, 600 if not thorough else 6000)
+    for hist in keep:
+        tr += 1
+        rl.append(build_reload(c.rng, tr, reload_of_hist(hist)))
+    for _ in range(300 if not thorough else 3000):
+        tr += 1
+        rl.append(random_reload(c.rng, tr))
+    for _ in range(40 if not thorough else 200):
+        tr += 1
+        rl.append(directed_reload(c.rng, tr))
+    c.cov['reload_scenarios'] = len(rl)
+    c.log('S2 reload scenarios: %d transition cover + random + directed' % len(rl))
     # S3 + S4 ----------------------------------------------------------------------------
     selftested = False
     nontriv = set()
-    for tag, group in (('tlc', scns), ('flood', fs), ('rand', rs)):
+    for tag, group in (('tlc', scns), ('flood', fs), ('rand', rs), ('reload', rl)):
         for i in range(0, len(group), 2500):
             part = group[i:i + 2500]
             mism, tp = run_and_validate(c, drv, part, '%s%d' % (tag, i))
             nontriv |= count_nontrivial(part, tp)
+            if tag == 'reload' and not mism and i == 0:
+                reload_selftest(c, tp, set())
             if tag == 'flood':
                 if not mism:
                     binding_selftest(c, tp, set(), key='binding_selftest_flood_family')
